@@ -26,6 +26,10 @@ type Program struct {
 	Overlay  map[string][]byte
 	Harness  map[string]*ssa.Function // "pkgpath.VerifXxx"
 	LoadTime float64
+	// Dropped lists overlay (harness) files that do not compile against this tree — e.g. a
+	// white-box lemma after an internal rename — with the first error of each; they were left
+	// out so that the remaining harnesses still run.
+	Dropped map[string]string
 }
 
 // BuildOverlay maps every file under harnessDir onto the same relative path under repoDir.
@@ -49,7 +53,34 @@ func BuildOverlay(harnessDir, repoDir string) (map[string][]byte, error) {
 	return ov, err
 }
 
+// Load type-checks the repository with the overlay. Overlay files with errors are dropped one
+// round at a time (a dropped helper file can make its dependants fail in the next round);
+// errors in the repository's own files are fatal.
 func Load(repoDir string, overlay map[string][]byte) (*Program, error) {
+	ov := map[string][]byte{}
+	for k, v := range overlay {
+		ov[k] = v
+	}
+	dropped := map[string]string{}
+	for round := 0; ; round++ {
+		p, bad, err := loadOnce(repoDir, ov)
+		if err == nil {
+			p.Dropped = dropped
+			return p, nil
+		}
+		if len(bad) == 0 || round > 12 {
+			return nil, err
+		}
+		for f, msg := range bad {
+			delete(ov, f)
+			dropped[f] = msg
+		}
+	}
+}
+
+// loadOnce returns the program, or the overlay files named in type errors (if every error is
+// in an overlay file) together with the error.
+func loadOnce(repoDir string, overlay map[string][]byte) (*Program, map[string]string, error) {
 	cfg := &packages.Config{
 		Mode:    packages.LoadAllSyntax,
 		Dir:     repoDir,
@@ -59,12 +90,28 @@ func Load(repoDir string, overlay map[string][]byte) (*Program, error) {
 	}
 	pkgs, err := packages.Load(cfg, "./...")
 	if err != nil {
-		return nil, err
+		return nil, nil, err
 	}
 	var errs []string
+	bad := map[string]string{}
+	foreign := false
 	packages.Visit(pkgs, nil, func(p *packages.Package) {
 		for _, e := range p.Errors {
 			errs = append(errs, e.Error())
+			file := e.Pos
+			if i := strings.Index(file, ":"); i >= 0 {
+				file = file[:i]
+			}
+			if !filepath.IsAbs(file) {
+				file = filepath.Join(repoDir, file)
+			}
+			if _, isOverlay := overlay[file]; isOverlay {
+				if _, seen := bad[file]; !seen {
+					bad[file] = e.Error()
+				}
+			} else {
+				foreign = true
+			}
 		}
 	})
 	if len(errs) > 0 {
@@ -72,7 +119,10 @@ func Load(repoDir string, overlay map[string][]byte) (*Program, error) {
 		if len(errs) > 10 {
 			errs = errs[:10]
 		}
-		return nil, fmt.Errorf("package errors:\n%s", strings.Join(errs, "\n"))
+		if foreign {
+			bad = nil
+		}
+		return nil, bad, fmt.Errorf("package errors:\n%s", strings.Join(errs, "\n"))
 	}
 	prog, _ := ssautil.AllPackages(pkgs, ssa.InstantiateGenerics)
 	prog.Build()
@@ -124,5 +174,5 @@ func Load(repoDir string, overlay map[string][]byte) (*Program, error) {
 			}
 		}
 	})
-	return p, nil
+	return p, nil, nil
 }
